@@ -32,6 +32,10 @@ def regStep : List String → String
     match Hex.toBytes? h with
     | some bs => Hex.render (pctDecode bs)
     | none => "bad-op"
+  | ["national", cc, ph] =>
+    match Hex.toBytes? cc, Hex.toBytes? ph with
+    | some c, some p => Hex.render (nationalOf c p)
+    | _, _ => "bad-op"
   | "params" :: rest =>
     match parsePairs rest with
     | some ps => Hex.render (urlencodeParams ps)
